@@ -34,6 +34,7 @@ def run(chk):
     os.makedirs(base)
     dirs = []
     for wi in range(15 if quick else 150):
+        rng.seed("%d/c16-1/%d" % (chk.seed, wi))      # every world has its own stream: families do not disturb each other
         wj, sph = any_world(rng)
         seed = rng.choice([0, 1, 2, 1000, rng.randrange(1 << 31)])      # 0 is a legal seed too
         if wi % 5 == 0:
